@@ -429,3 +429,89 @@ pub fn run(args: &Args) -> i32 {
     }
     0
 }
+
+
+// ------------------------------------------------------------------------------------------------
+// action-level traces of the budget enforcer (TR_Budget)
+// ------------------------------------------------------------------------------------------------
+#[derive(Serialize)]
+struct BStep {
+    kind: &'static str,
+    anchor: usize,
+    bytes: usize,
+    merge_key: bool,
+    expanded: bool,
+    per_document: bool,
+    events: usize,
+    nodes: usize,
+    depth: usize,
+    max_depth: usize,
+    aliases: usize,
+    anchors: usize,
+    scalar_bytes: usize,
+    merge_keys: usize,
+    documents: usize,
+    containers: usize,
+    top_expecting_key: i8,
+}
+#[derive(Serialize)]
+struct BTrace<'a> {
+    id: String,
+    yaml: &'a str,
+    entry: &'a str,
+    steps: Vec<BStep>,
+}
+#[derive(Default, Serialize)]
+struct BStats {
+    records: usize,
+    nontrivial: usize,
+    steps: usize,
+    replay_steps: usize,
+    samples: Vec<serde_json::Value>,
+}
+
+/// `vh c07t --cases .. --out .. --policy all|perdoc [--every k]`: the enforcer's step log for every case stream under
+/// unlimited and usage-tight limits, through from_multiple and check_yaml_budget (all content) or read (per document)
+pub fn run_traces(args: &Args) -> i32 {
+    let mut w = NdWriter::create(args.req("out"));
+    let mut stats = BStats::default();
+    let perdoc = args.get("policy") == Some("perdoc");
+    let every = args.num("every", 1).max(1) as usize;
+    let mut rng = Rng::new(args.num("seed", 1));
+    let cases: Vec<Case> = read_ndjson(args.req("cases"));
+    for (i, c) in cases.iter().enumerate() {
+        if i % every != 0 { continue; }
+        let Some((text, _want)) = render_stream(&c.raw, i % 2 == 0) else { continue };
+        let Some(usage) = rough_usage(&text) else { continue };
+        let mut lims = vec![UNL];
+        lims.extend(lim_variants(&usage, &mut rng, false).into_iter().take(2));
+        let entries: &[&str] = if perdoc { &["read"] } else { &["multi", "check-all"] };
+        for (li, l) in lims.iter().enumerate() {
+            for entry in entries {
+                let t = text.clone();
+                let l2 = *l;
+                let e2 = entry.to_string();
+                let steps = guarded(move || {
+                    serde_saphyr::verif_hooks::budget_trace_begin();
+                    let _ = run_entry(&e2, &t, &l2);
+                    serde_saphyr::verif_hooks::budget_trace_end()
+                });
+                let Ok(steps) = steps else { continue };
+                let steps: Vec<BStep> = steps.into_iter().map(|s| BStep { kind: s.kind, anchor: s.anchor, bytes: s.bytes, merge_key: s.merge_key, expanded: s.expanded, per_document: s.per_document,
+                    events: s.events, nodes: s.nodes, depth: s.depth, max_depth: s.max_depth, aliases: s.aliases, anchors: s.anchors, scalar_bytes: s.scalar_bytes, merge_keys: s.merge_keys,
+                    documents: s.documents, containers: s.containers, top_expecting_key: s.top_expecting_key }).collect();
+                if steps.is_empty() { continue; }
+                stats.steps += steps.len();
+                let replays = steps.iter().filter(|s| s.expanded && s.kind != "AL" && s.anchor == 0).count();
+                stats.replay_steps += replays;
+                if steps.iter().any(|s| s.kind == "AL") { stats.nontrivial += 1; }
+                if stats.samples.len() < 2 && steps.iter().any(|s| s.kind == "AL") { stats.samples.push(serde_json::json!({"yaml": text, "entry": entry, "steps": steps.len()})); }
+                w.put(&BTrace { id: format!("b{i}-{entry}-{li}"), yaml: &text, entry, steps });
+            }
+        }
+    }
+    stats.records = w.n;
+    w.finish();
+    println!("{}", serde_json::to_string(&stats).unwrap());
+    0
+}
